@@ -788,7 +788,8 @@ func (r *yieldRewriter) rewriteBreakContinues(body *ast.BlockStmt) {
 		switch n := n.(type) {
 		case *ast.ForStmt, *ast.RangeStmt:
 			enterLoop(true)
-		case *ast.SwitchStmt, *ast.TypeSwitchStmt:
+		case *ast.SwitchStmt, *ast.TypeSwitchStmt, *ast.SelectStmt:
+			// break leaves the innermost for, switch or select
 			enterSwitch(true)
 		case *ast.FuncLit:
 			enterLoop(false)
@@ -801,7 +802,7 @@ func (r *yieldRewriter) rewriteBreakContinues(body *ast.BlockStmt) {
 		switch n := n.(type) {
 		case *ast.ForStmt, *ast.RangeStmt:
 			exitLoop()
-		case *ast.SwitchStmt, *ast.TypeSwitchStmt:
+		case *ast.SwitchStmt, *ast.TypeSwitchStmt, *ast.SelectStmt:
 			exitSwitch()
 		case *ast.FuncLit:
 			exitLoop()
